@@ -624,7 +624,7 @@ PROBES_IN_KNOWN_CLASS = [PROBES[-3], PROBES[-2], PROBES[-1], PROBES[4], PROBES[8
 def main():
     t0 = time.time()
     T_ = tier()
-    B = {"args": 2, "namelen": 4, "strlen": 2, "objlen": 1} if T_ == "quick" else {"args": 2, "namelen": 4, "strlen": 3, "objlen": 1}     # objects of 2 entries: measured, pairs of (int,int) objects exceed 60 s in cvc5, z3 5.1 and z3 4.8.12 (DESIGN M14)
+    B = {"args": 2, "namelen": 4, "strlen": 2, "objlen": 1} if T_ == "quick" else {"args": 2, "namelen": 5, "strlen": 2, "objlen": 1}     # objects of 2 entries: measured, pairs of (int,int) objects exceed 60 s in cvc5, z3 5.1 and z3 4.8.12 (DESIGN M14)
     violations, known_lines, infra, queries, samples = [], [], [], [], []
     n_valid = 0
     kf = known_findings(PROP)
